@@ -75,6 +75,8 @@ STR = r'"(?:[^"\\]|\\.)*"'
 
 # (rule id, name, regex, replacement (str with \1 refs or callable))
 TABLE = [
+    ('R14', 'bitflags `a.layers_enabled |= b` -> `a.layers_enabled.insert(b)` (bitflags: `|=` is the union, i.e. insert)',
+     re.compile(r'([\w.]+\.layers_enabled)\s*\|=\s*([^;]+);'), r'\1.insert(\2);'),
     ('R6', 'drop eprintln/println', re.compile(r'\b(?:e?println)!\s*\((?:[^()"]|' + STR + r'|\((?:[^()"]|' + STR + r')*\))*\)\s*;'), ''),
     ('R1', 'closure |_| -> |_e|', re.compile(r'\|\s*_\s*\|'), '|_e|'),
     ('R2', 'io::Error::new(kind, msg) -> verr(kind)',
